@@ -133,10 +133,13 @@ def main():
             if not os.path.exists(mp):
                 continue
             meta = json.load(open(mp))
+            if meta.get('superseded'):
+                print(cid, 'superseded by', meta['superseded'], '(no longer changes behaviour on the current tree)', flush=True)
+                continue
             wt = make_worktree()
             try:
                 sh(['git', '-C', wt, 'apply', os.path.join(d, 'patch.diff')])
-                meta['checks'] = run_checks(wt, meta.get('checked_with', [meta['breaks_property']]), tier)
+                meta['checks'] = run_checks(wt, meta.get('checked_with', [meta['breaks_property']]), meta.get('tier', tier))
             finally:
                 drop_worktree(wt)
             json.dump(meta, open(mp, 'w'), indent=1, sort_keys=True)
